@@ -29,7 +29,8 @@ def frame(rng, tag, kind=None):
 def message(rng, tag, stype, nmax=4):
     """wire message (list of frame bodies) a peer sends to a socket of type stype; last frame always carries the tag"""
     n = rng.randint(1, nmax)
-    frames = [frame(rng, "%sf%d" % (tag, i)) for i in range(n - 1)] + [frame(rng, tag, rng.choice(["tag", "tag", "256", "big"]))]
+    u = rng.randrange(n)    # the frame that carries the unique tag; every other frame may be anything, incl. an empty last frame
+    frames = [frame(rng, tag, rng.choice(["tag", "tag", "256", "big"])) if i == u else frame(rng, "%sf%d" % (tag, i)) for i in range(n)]
     if stype == "REP":
         # well-formed request: 0..2 routing frames (non-empty), delimiter, payload with non-empty... payload frames may be empty
         pre = [("r%d" % i).encode() + tag.encode() for i in range(rng.randint(0, 2))]
@@ -61,7 +62,7 @@ def delivery_script(rng, stype, scen, drops=True, faults=True):
         nxt += 1
         op = {"op": "attach", "c": c, "ptype": rng.choice(PEER_OF[stype])}
         if rng.random() < 0.4:
-            op["ident"] = hx("id%d" % c if rng.random() < 0.8 else "I" * 255)
+            op["ident"] = hx("id%d" % c if rng.random() < 0.8 else ("I%d" % c) + "I" * 253)   # unique per connection (duplicates are unspecified)
         if rng.random() < 0.3:
             cnt[c] = cnt.get(c, 0) + 1
             op["first"] = [hx(f) for f in message(rng, "c%dm%d" % (c, cnt[c]), stype)]
